@@ -432,8 +432,58 @@ def _derives_from_local(fl, b, op, l):
     return False
 
 
+PLUMBING = ("::deref", "::as_ref", "::as_str", "::borrow", "::as_mut", "::deref_mut")
+
+
+def rule_password_passthrough(chk, fb, rid, targets, floor):
+    """Whatever the caller typed is what gets hashed: on the way from a public entry point to the hashing / key
+    derivation function the password is handed on as it is (no truncation, normalisation or re-encoding)."""
+    r = chk.rule(
+        rid,
+        "the password is handed on untouched: at every call of the key-derivation / hashing entry points the password argument is the caller's own string parameter (seen through reference plumbing only), not the result of a computation on it",
+        floor=floor,
+    )
+    for tgt in sorted(targets):
+        tb = fb.mir.get(tgt)
+        if not tb:
+            continue
+        pidx = [i for i in range(1, tb["argc"] + 1) if tb["locals"][i].get("n") == "password"]
+        if not pidx:
+            continue
+        pi = pidx[0]
+        for c in sorted({x[0] for x in fb.callers.get(tgt, ())}):
+            cb = fb.mir.get(c)
+            if not cb or cb["file"].startswith("tests") or "::tests::" in c:
+                continue
+            fl = Flow(fb, cb)
+            n = 0
+            for bi, t in fl.calls(lambda t: t.get("fn") == tgt):
+                if pi - 1 >= len(t["args"]):
+                    continue
+                prod = _direct(fl, cb, t["args"][pi - 1])
+                ok = bool(prod) and all(a[0] == "arg" for a in prod)
+                chk.touch(c)
+                chk.ob(r, "%s->%s#%d" % (c.split("::", 1)[-1] if c.count("::") else c, tgt.split("::")[-1], n), ok, where="%s:%s" % (cb["file"], t["ln"]),
+                       detail="password argument is %s" % ("the caller's parameter" if ok else "computed: %s" % sorted(a[1].split("::")[-1] if a[0] == "call" else str(a) for a in prod)))
+                n += 1
+
+
+def _direct(fl, b, op, depth=0):
+    out = set()
+    for a in fl.atoms(op, through_calls=False):
+        if a[0] == "call" and a[1].endswith(PLUMBING) and depth < 5:
+            t = b["blocks"][a[2]]["t"]
+            if t["args"]:
+                out |= _direct(fl, b, t["args"][0], depth + 1)
+                continue
+        if a[0] in ("call", "arg", "field"):
+            out.add(a)
+    return out
+
+
 def run(chk, fb, tier):
     rule_encrypt(chk, fb)
     rule_shapes(chk, fb)
+    rule_password_passthrough(chk, fb, "C14.e", ["helper::crypt::encrypt"], 3)
     chk.assume("aes/cbc/sha2/hmac crates implement AES-256-CBC, SHA-512 and HMAC; getrandom yields uniformly random bytes")
     chk.note("not decided: that the produced bytes decrypt under an independent implementation (digest/cipher values)")
